@@ -92,7 +92,8 @@ def _eval_density(ctx, un, case, fam, way, d, dist, x, extra="", accept_refusal=
     xv = np.array(x)
     # pdf = exp(logpdf)
     st, v, _ = fc.call(lambda: dist.pdf(xv))
-    ctx.case(("pdf", fc.case_id(case), way, extra), facet="pdf")
+    # pdf is exp(logpdf) in the base class: counted as non-trivial only for the families that implement their own pdf
+    ctx.case(("pdf", fc.case_id(case), way, extra), nontrivial=fam in ("Normal", "LMRF", "Lognormal"), facet="pdf")
     got = fc.scalar_of(v) if st == "value" else None
     if got is None or not fc.close(got, math.exp(exp) if exp > -math.inf else 0.0, 1e-9, 1e-300):
         ctx.mismatch(_sig("pdf", fam, way, d, case, extra), case, "pdf is not exp(documented log-density)",
